@@ -364,6 +364,9 @@ def rest(ctx):
     # ---- R6: the two machines the macros instantiate: the inner construct only ever sees the decoded view
     machinery(ctx, "C10.R6")
     restreamed_sizeof(ctx, "C10.R6")
+    # the sized and the streaming form of a bit-level region hand the enclosing structure the same thing: the inner build result (shared with C07.R4)
+    from . import C07 as _C07
+    _C07.wrapper_build_result(ctx, "C10.R6")
     ctx.floor("C10.R6", 10)
     # which of the two region implementations runs is decided by subcon.sizeof(): the sizing methods are side-effect free and translate a
     # missing key (e.g. this._index in an element width) into SizeofError instead of inventing a value (shared with C05.R1)
